@@ -16,6 +16,6 @@ Next == /\ Len(sched) < MaxLen
              /\ term => (ev = "cn" /\ nafter < MaxAfter)
              /\ ~term => ((half => ev \in {"m2", "cn", "eof", "rerr", "lclose"}) /\ (~half => ev # "m2"))
              /\ Step(ev)
-HasRequest == \E i \in 1..Len(sched) : sched[i] \in {"mh", "mm", "cn"}
+HasRequest == \E i \in 1..Len(sched) : sched[i] \in {"mh", "mm", "cn", "mhp"}
 Emit == ~(term /\ HasRequest) \/ PrintT(ToJson([sched |-> sched]))
 =============================================================================
